@@ -51,6 +51,10 @@ type Behaviour struct {
 	K       int           `json:"k,omitempty"`        // body bytes delivered before the fault
 	ChunkSz int           `json:"chunk_sz,omitempty"` // size of chunks when Chunked (default: whole body)
 	StallMs int           `json:"stall_ms,omitempty"`
+	GapUs   int           `json:"gap_us,omitempty"` // kind "pause": the gap between the pieces after the pause, in microseconds (0: the 20 ms it always was; negative: none)
+	// KeepAlive (kinds "ok" and "pause" only): the answer does not say "Connection: close" and the connection is kept for
+	// the next request, so the proxy's transport may reuse it for a different request later
+	KeepAlive bool `json:"keep_alive,omitempty"`
 	Gate    chan struct{} `json:"-"` // if set, the backend waits on it after reading the request
 }
 
@@ -347,6 +351,9 @@ func (b *Backend) handle(c net.Conn) {
 			<-bh.Gate
 		}
 		again := b.respond(c, bh, s)
+		if !again {
+			c.Close()
+		}
 		atomic.AddInt64(&b.busy, -1)
 		if !again {
 			return
@@ -371,7 +378,11 @@ func (b *Backend) respond(c net.Conn, bh Behaviour, s *Seen) bool {
 			fmt.Fprintf(&sb, "%s: %s\r\n", h[0], h[1])
 		}
 		sb.WriteString(extra)
-		sb.WriteString("Connection: close\r\n\r\n")
+		if bh.KeepAlive && (bh.Kind == "ok" || bh.Kind == "" || bh.Kind == "pause") {
+			sb.WriteString("\r\n")
+		} else {
+			sb.WriteString("Connection: close\r\n\r\n")
+		}
 		return sb.String()
 	}
 	w := func(p []byte) {
@@ -420,7 +431,7 @@ func (b *Backend) respond(c net.Conn, bh Behaviour, s *Seen) bool {
 			w([]byte(head(fmt.Sprintf("Content-Length: %d\r\n", len(body)))))
 			wb(body)
 		}
-		return false
+		return bh.KeepAlive
 	case "reset0":
 		rst(c)
 	case "close0":
@@ -475,6 +486,7 @@ func (b *Backend) respond(c net.Conn, bh Behaviour, s *Seen) bool {
 			if n > len(rest) {
 				n = len(rest)
 			}
+			before := s.Wrote
 			if bh.Chunked {
 				w([]byte(fmt.Sprintf("%x\r\n", n)))
 				wb(rest[:n])
@@ -482,14 +494,23 @@ func (b *Backend) respond(c net.Conn, bh Behaviour, s *Seen) bool {
 			} else {
 				wb(rest[:n])
 			}
+			if bh.GapUs != 0 && s.Wrote == before {
+				return false // (only with GapUs, i.e. for thousands of pieces) nobody takes the bytes any more
+			}
 			rest = rest[n:]
 			if len(rest) > 0 {
-				time.Sleep(20 * time.Millisecond)
+				switch {
+				case bh.GapUs == 0:
+					time.Sleep(20 * time.Millisecond)
+				case bh.GapUs > 0:
+					time.Sleep(time.Duration(bh.GapUs) * time.Microsecond)
+				}
 			}
 		}
 		if bh.Chunked {
 			w([]byte("0\r\n\r\n"))
 		}
+		return bh.KeepAlive
 	case "shortcl": // declares len(body) but sends only k bytes then closes cleanly
 		w([]byte(head(fmt.Sprintf("Content-Length: %d\r\n", len(body)))))
 		wb(body[:k])
